@@ -36,6 +36,34 @@ type Tree struct {
 	reorgLeaf *Node     // -prop C19 scenario: tip of a valid branch longer than the main chain
 	trap      *trapInfo // two-checkpoints-in-one-message scenario
 	restart   *restartInfo
+	cpf       *cpForkInfo
+	flip      *flipInfo
+	wfc       *wfcpInfo
+}
+
+// cpForkInfo: checkpoint at height c on the main chain; sideA leaves the main
+// chain below c and ends at height c-1 (a client on it has its tip exactly
+// one below the checkpoint); sideB forks AT the checkpoint block and is
+// longer than the main chain above it; sideC forks below the checkpoint and
+// is longer than the main chain (must be refused once c is reached).
+type cpForkInfo struct {
+	c                   int32
+	sideA, sideB, sideC *Node
+	forkC               *Node
+}
+
+// flipInfo: branch B forks off the main chain (A) at fork and is one header
+// longer; aExt extends A's old tip aTip so that A is the heavier one again.
+type flipInfo struct {
+	fork, aTip, bTip, aExt *Node
+}
+
+// wfcpInfo: checkpoint at height c; side leaves the main chain at t0 < c and
+// runs past height c (its header at height c is not the checkpoint).
+type wfcpInfo struct {
+	c    int32
+	t0   *Node
+	side *Node
 }
 
 // restartInfo: three valid branches forking off the main chain at base, d >= 2
